@@ -81,12 +81,35 @@ def find_int(src, pattern, group=1):
         return None
 
 
+def find_bound(src, pattern):
+    """`pattern` has two groups: the comparison operator (< or <=) and the literal; the result is
+    the exclusive bound N of `x < N` (so `x <= 20` yields 21)."""
+    if src is None:
+        return None
+    m = re.search(pattern, src, flags=re.S)
+    if not m:
+        return None
+    try:
+        n = int(m.group(2).replace("_", ""))
+    except ValueError:
+        return None
+    return n + 1 if m.group(1) == "<=" else n
+
+
+def find_bounds(src, pattern):
+    out = []
+    for m in re.finditer(pattern, src or "", flags=re.S):
+        n = int(m.group(2).replace("_", ""))
+        out.append(n + 1 if m.group(1) == "<=" else n)
+    return out
+
+
 # ------------------------------------------------------------------ arithmetic/mod.rs
 arith = strip_comments(read("src/arithmetic/mod.rs"))
 ttu = fn_body(arith, r"fn\s+ten_to_the_uint\s*\(")
-const("tenPowSmall", find_int(ttu, r"if\s+pow\s*<\s*(\d+)\s*\{\s*return\s+BigUint::from\(10u64\.pow"),
+const("tenPowSmall", find_bound(ttu, r"if\s+pow\s*(<=?)\s*(\d+)\s*\{\s*return\s+BigUint::from\(10u64\.pow"),
       "ten_to_the_uint: `if pow < N` single-u64 case")
-const("tenPowLinear", find_int(ttu, r"if\s+pow\s*<\s*(\d+)\s*\{\s*let\s+ten_to_nineteen"),
+const("tenPowLinear", find_bound(ttu, r"if\s+pow\s*(<=?)\s*(\d+)\s*\{\s*let\s+ten_to_nineteen"),
       "ten_to_the_uint: `if pow < N` linear case")
 const("tenPowChunkExp", find_int(ttu, r"let\s+ten_to_nineteen\s*=\s*10u64\.pow\((\d+)\)"),
       "ten_to_the_uint: exponent of the u64 chunk")
@@ -99,16 +122,16 @@ shape_ok = ttu is not None and re.search(
     r"let\s+x2\s*=\s*&x\s*\*\s*&x;\s*let\s+x4\s*=\s*&x2\s*\*\s*&x2;\s*let\s+x8\s*=\s*&x4\s*\*\s*&x4;\s*let\s+res\s*=\s*&x8\s*\*\s*&x8;", ttu)
 const("tenPowSquarings", 4 if shape_ok else None, "ten_to_the_uint: number of squarings in the recursive case")
 mbt = fn_body(arith, r"fn\s+multiply_by_ten_to_the_uint")
-const("mulTenFast", find_int(mbt, r"if\s+pow\s*<\s*(\d+)"), "multiply_by_ten_to_the_uint fast path bound")
+const("mulTenFast", find_bound(mbt, r"if\s+pow\s*(<=?)\s*(\d+)"), "multiply_by_ten_to_the_uint fast path bound")
 
 # ------------------------------------------------------------------ lib.rs
 lib = strip_comments(read("src/lib.rs"))
 ss = fn_body(lib, r"fn\s+set_scale\s*\(")
-vals = re.findall(r"if\s+scale_diff\s*<\s*(\d+)", ss or "")
+vals = find_bounds(ss, r"if\s+scale_diff\s*(<=?)\s*(\d+)")
 const("setScaleFastUp", vals[0] if len(vals) >= 1 else None, "set_scale: u64 fast path bound (growing)")
 const("setScaleFastDown", vals[1] if len(vals) >= 2 else None, "set_scale: u64 fast path bound (shrinking)")
 tows = fn_body(lib, r"fn\s+to_owned_with_scale\s*\(")
-vals = re.findall(r"if\s+scale_diff\s*<\s*(\d+)", tows or "")
+vals = find_bounds(tows, r"if\s+scale_diff\s*(<=?)\s*(\d+)")
 const("toOwnedFastUp", vals[0] if len(vals) >= 1 else None, "to_owned_with_scale: fast path bound (growing)")
 const("toOwnedFastDown", vals[1] if len(vals) >= 2 else None, "to_owned_with_scale: fast path bound (shrinking)")
 expb = (fn_body(lib, r"pub\s+fn\s+exp\s*\(") or "") + "\n" + (fn_body(lib, r"fn\s+exp_untrimmed\s*\(") or "")
